@@ -39,6 +39,7 @@ type script struct {
 	Policy    []string `json:"policy"`
 	Burst     bool     `json:"burst"`  // free-running burst: functions hold HoldMs instead of waiting at a gate
 	HoldMs    int      `json:"holdMs"`
+	FullReports bool   `json:"fullReports"` // the module error reporting channel is full and nobody reads it
 	Storm     int      `json:"storm"` // rounds of a signalled microtask whose done function is called by 4 goroutines at once
 }
 
@@ -217,6 +218,12 @@ func main() {
 		}
 	}
 	modules.SetMaxConcurrentMicroTasks(sc.Threshold)
+	if sc.FullReports {
+		// a consumer of error reports that has fallen behind: reporting must not hold up the reporter
+		ch := make(chan *modules.ModuleError, 1)
+		ch <- &modules.ModuleError{Message: "filler"}
+		modules.SetErrorReportingChannel(ch)
+	}
 	maxDelay := 10 * time.Second
 	launched := map[string]bool{}
 	// microtasks that span the start of their module: submitted now, finished when the policy says so
